@@ -16,7 +16,7 @@ func withMalformed(t ...string) []string { return append(t, Malformed...) }
 var S3 = []TokenAlphabet{
 	{"expr", withMalformed("a", "1", "@p", "'s'", "(", ")", "[", "]", ",", ".", "+", "-", "*", "NOT", "AND", "OR", "=", "<", ">", ">>", "<>",
 		"IS", "NULL", "IN", "BETWEEN", "LIKE", "CASE", "WHEN", "THEN", "ELSE", "END", "CAST", "AS", "INT64", "SELECT", "ARRAY", "STRUCT",
-		"{", "}", ":", "NEW", "WITH", "1.", ";"), 3, 4},
+		"{", "}", ":", "NEW", "WITH", "1.", "`all`", ";"), 3, 4},
 	{"query", withMalformed("SELECT", "*", "a", "1", "FROM", "WHERE", "GROUP", "BY", "HAVING", "ORDER", "LIMIT", "OFFSET", "UNION", "ALL", "DISTINCT",
 		"EXCEPT", "(", ")", ",", ".", "AS", "JOIN", "ON", "USING", "CROSS", "LEFT", "HASH", "UNNEST", "WITH", "TABLESAMPLE", "@", "{", "}", "=",
 		"|>", "FOR", "UPDATE", "@p", ";"), 3, 4},
